@@ -69,7 +69,8 @@ def auto_corpus(contract):
     minimum engine / CPython cross-check every contract gets even without a hand-written corpus"""
     out = []
     for case in contract.cases:
-        for defaults in ({"str": "", "int": 0, "bool": False}, {"str": "ab", "int": 2, "bool": True}, {"str": "Xy", "int": -1, "bool": True}):
+        for defaults in ({"str": "", "int": 0, "bool": False}, {"str": "ab", "int": 2, "bool": True}, {"str": "Xy", "int": -1, "bool": True},
+                         {"str": "Optional", "int": 7, "bool": False}):
             saved = dict(driver._DEFAULT_OF)
             driver._DEFAULT_OF.update(defaults)
             try:
@@ -86,7 +87,8 @@ def auto_corpus(contract):
 
 
 def _check_one(args):
-    key, kwargs = args
+    key, kwargs = args[0], args[1]
+    use_engine = args[2] if len(args) > 2 else True
     V.preimport_meta()
     registry = driver.load_registry()
     contract = registry[key]
@@ -99,6 +101,10 @@ def _check_one(args):
     full.update(kwargs)
     real = driver.real_call(contract, full)
     try:
+        if not use_engine:
+            # a contract over opaque callees: the engine's run has no CPython counterpart (fresh results for the opaque calls), but its clauses that speak
+            # about arguments and result only are evaluated on what the REAL composite returns - the check that the modelling assumptions did not change the claim
+            raise Unsupported("contract over opaque callees: clauses about arguments and result are evaluated on the real code, the engine is not compared")
         conc = driver.concrete_run(contract, registry, full, case)
     except Unsupported as e:
         conc = None
@@ -158,8 +164,8 @@ def _check_one(args):
     return rec
 
 
-def run_corpus(key, corpus, procs=16):
-    jobs = [(key, kw) for kw in corpus]
+def run_corpus(key, corpus, procs=16, use_engine=True):
+    jobs = [(key, kw, use_engine) for kw in corpus]
     if not jobs:
         return []
     if procs <= 1 or len(jobs) < 8:
